@@ -488,7 +488,10 @@ Mut(m, t) ==
          THEN {Tag([t EXCEPT !.rev = <<[cid |-> t.res[1].cid, c |-> Rev1(m.c1[t.res[1].cid], 1, 2), auth |-> "ok"]>>], "withrev")} ELSE {}) ELSE {})
 \cup (IF "formation" \in Defects /\ t.fc # <<>> /\ t.ver = 2 THEN
         {Tag([t EXCEPT !.fc[1].ph = child - 1, !.fc[1].eh = child], "phpast"), Tag([t EXCEPT !.fc[1].eh = t.fc[1].ph], "nowindow"),
-         Tag([t EXCEPT !.fc[1].mh = t.fc[1].h + 1], "missedhigh"), Tag([t EXCEPT !.fc[1].auth = "badsig"], "badsig")} ELSE {})
+         Tag([t EXCEPT !.fc[1].mh = t.fc[1].h + 1], "missedhigh"), Tag([t EXCEPT !.fc[1].auth = "badsig"], "badsig"),
+         \* a contract that commits nothing, formed by a transaction that spends nothing: it could be mined again unchanged,
+         \* under the same transaction id and hence the same contract id
+         Tag([t EXCEPT !.sci = <<>>, !.sco = <<>>, !.fee = 0, !.fc = <<[t.fc[1] EXCEPT !.r = 0, !.h = 0, !.mh = 0, !.coll = 0]>>], "zeroval")} ELSE {})
 \cup (IF "formation" \in Defects /\ t.fc # <<>> /\ t.ver = 1 THEN
         {Tag([t EXCEPT !.fc[1].ws = child - 1], "wspast"), Tag([t EXCEPT !.fc[1].we = t.fc[1].ws], "nowindow"),
          Tag([t EXCEPT !.fc[1].pay = @ + 10000, !.sco = IF @ # <<>> /\ @[1].val > 10000 THEN [@ EXCEPT ![1].val = @ - 10000] ELSE @], "tax")} ELSE {})
